@@ -3,6 +3,8 @@ package props
 import (
 	"errors"
 	"fmt"
+	"html/template"
+	"io/fs"
 	"sort"
 	"strings"
 
@@ -20,35 +22,44 @@ var c04Ops = []string{"+", "-", "*", "/", "<", "<=", ">", ">=", "==", "!=", "~="
 
 func c04Callees() map[string]interface{} {
 	return map[string]interface{}{
-		"c_0":    func() string { return "r" },
-		"c_s":    func(s string) string { return s },
-		"c_i":    func(i int) int { return i },
-		"c_b":    func(x bool) bool { return x },
-		"c_f":    func(f float64) float64 { return f },
-		"c_any":  func(x interface{}) string { return fmt.Sprintf("%T", x) },
-		"c_pt":   func(t *T) string { return t.PLabel() },
-		"c_t":    func(t T) string { return t.Label() },
-		"c_is":   func(xs []int) int { return len(xs) },
-		"c_ii":   func(a, b int) int { return a + b },
-		"c_si":   func(s string, i int) string { return s },
-		"c_m":    func(m map[string]interface{}) int { return len(m) },
-		"c_sm":   func(s string, m map[string]interface{}) string { return s },
-		"c_h":    func(h plush.HelperContext) string { return fmt.Sprint(h.HasBlock()) },
-		"c_sh":   func(s string, h plush.HelperContext) string { return s },
-		"c_smh":  func(s string, m map[string]interface{}, h plush.HelperContext) string { return s },
-		"c_hi":   func(h hctx.HelperContext) string { return "hi" },
-		"c_ph":   func(h *plush.HelperContext) string { return "ph" },
-		"c_vs":   func(xs ...string) string { return strings.Join(xs, ",") },
-		"c_vi":   func(xs ...int) int { return len(xs) },
-		"c_vany": func(xs ...interface{}) int { return len(xs) },
-		"c_svs":  func(s string, xs ...string) string { return s },
-		"c_err":  func() (string, error) { return "", errors.New("c_err") },
-		"c_nil":  func() (string, error) { return "ok", nil },
-		"c_void": func(i int) {},
-		"c_2ret": func() (int, string) { return 1, "x" },
-		"c_fn":   func(f func() int) int { return 1 },
-		"c_hm":   func(m hctx.Map) int { return len(m) },
-		"c_mh":   func(m hctx.Map, h hctx.HelperContext) int { return len(m) },
+		"c_0":               func() string { return "r" },
+		"c_s":               func(s string) string { return s },
+		"c_i":               func(i int) int { return i },
+		"c_b":               func(x bool) bool { return x },
+		"c_f":               func(f float64) float64 { return f },
+		"c_any":             func(x interface{}) string { return fmt.Sprintf("%T", x) },
+		"c_pt":              func(t *T) string { return t.PLabel() },
+		"c_t":               func(t T) string { return t.Label() },
+		"c_is":              func(xs []int) int { return len(xs) },
+		"c_ii":              func(a, b int) int { return a + b },
+		"c_si":              func(s string, i int) string { return s },
+		"c_m":               func(m map[string]interface{}) int { return len(m) },
+		"c_sm":              func(s string, m map[string]interface{}) string { return s },
+		"c_h":               func(h plush.HelperContext) string { return fmt.Sprint(h.HasBlock()) },
+		"c_sh":              func(s string, h plush.HelperContext) string { return s },
+		"c_smh":             func(s string, m map[string]interface{}, h plush.HelperContext) string { return s },
+		"c_hi":              func(h hctx.HelperContext) string { return "hi" },
+		"c_ph":              func(h *plush.HelperContext) string { return "ph" },
+		"c_vs":              func(xs ...string) string { return strings.Join(xs, ",") },
+		"c_vi":              func(xs ...int) int { return len(xs) },
+		"c_vany":            func(xs ...interface{}) int { return len(xs) },
+		"c_svs":             func(s string, xs ...string) string { return s },
+		"c_err":             func() (string, error) { return "", errors.New("c_err") },
+		"c_nil":             func() (string, error) { return "ok", nil },
+		"c_void":            func(i int) {},
+		"c_2ret":            func() (int, string) { return 1, "x" },
+		"c_fn":              func(f func() int) int { return 1 },
+		"c_hm":              func(m hctx.Map) int { return len(m) },
+		"c_mh":              func(m hctx.Map, h hctx.HelperContext) int { return len(m) },
+		"c_errNilEmbedded":  func() (string, error) { return "", c04ErrNilEmbedded{} },
+		"c_errUnwrapPanics": func() (string, error) { return "", c04ErrOdd{how: "unwrap"} },
+		"c_errErrorPanics":  func() (string, error) { return "", c04ErrOdd{how: "error"} },
+		"c_errIsPanics":     func() (string, error) { return "", c04ErrOdd{how: "is"} },
+		"c_errSelfUnwrap":   func() (string, error) { return "", c04ErrOdd{how: "self"} },
+		"cap": func(h plush.HelperContext) (template.HTML, error) {
+			s, err := h.Block()
+			return template.HTML(s), err
+		},
 		"c_customhc": func(h customHC) string {
 			if h.HelperContext == nil {
 				return "nil"
@@ -57,6 +68,38 @@ func c04Callees() map[string]interface{} {
 		},
 	}
 }
+
+// c04ErrNilEmbedded has Error and Unwrap promoted from an embedded pointer that is nil.
+type c04ErrNilEmbedded struct{ *fs.PathError }
+
+// c04ErrOdd is an error one of whose methods panics.
+type c04ErrOdd struct{ how string }
+
+func (e c04ErrOdd) Error() string {
+	if e.how == "error" {
+		panic("Error() of the caller's type panics")
+	}
+	return "odd error"
+}
+func (e c04ErrOdd) Unwrap() error {
+	if e.how == "unwrap" {
+		panic("Unwrap() of the caller's type panics")
+	}
+	if e.how == "self" {
+		return e
+	}
+	return nil
+}
+func (e c04ErrOdd) Is(error) bool {
+	if e.how == "is" {
+		panic("Is() of the caller's type panics")
+	}
+	return false
+}
+
+type c04SelfI struct{}
+
+func (v c04SelfI) Interface() interface{} { return v }
 
 // customHC is a user type that satisfies hctx.HelperContext by embedding it.
 type customHC struct{ hctx.HelperContext }
@@ -69,6 +112,9 @@ func c04Ctx() *plush.Context {
 	ctx.Set("partialFeeder", func(name string) (string, error) {
 		if name == "ok" {
 			return "P<%= 1 %>", nil
+		}
+		if name == "uw" {
+			return "P<%= c_errNilEmbedded() %>", nil
 		}
 		return "", fmt.Errorf("no partial %q", name)
 	})
@@ -200,6 +246,46 @@ func c04Run(b *core.B) {
 		"<% let a = [1, 2] %><% let b = [a] %><% let c = [b, a] %><% a[0] = 5 %><%= c %>", "<% let m = {} %><% let n = {\"m\": m} %><% m[\"k\"] = 1 %><%= toJSON(n) %>",
 	} {
 		cell("self-containing", t)
+	}
+	// errors of the caller's own types: whatever the engine asks them (Error, Unwrap, Is, As) may panic
+	for _, t := range []string{
+		"<%= c_errNilEmbedded() %>", "<% c_errNilEmbedded() %>", "<%= if (true) { %><%= c_errNilEmbedded() %><% } %>", "<%= for (x) in [1] { %><%= c_errNilEmbedded() %><% } %>",
+		"<%= cap() { %><%= c_errNilEmbedded() %><% } %>", "<%= partial(\"uw\") %>", "<%= c_errUnwrapPanics() %>", "<%= c_errErrorPanics() %>", "<%= c_errIsPanics() %>", "<%= c_errSelfUnwrap() %>",
+		"<% contentFor(\"e\") { %><%= c_errUnwrapPanics() %><% } %><%= contentOf(\"e\") %>", "<%= if (c_errNilEmbedded()) { %>x<% } %>", "<%= c_errNilEmbedded() == nil %>",
+	} {
+		cell("errors-of-the-callers-own-types", t)
+	}
+	// the iterators of the stock helpers printed by every printer there is (their own Format method included)
+	for _, t := range []string{
+		"<%= debug(range(1, 3)) %>", "<%= inspect(until(2)) %>", "<%= inspect([between(1, 5)]) %>", "<%= debug({\"r\": range(1, 2)}) %>", "<%= truncate(between(1, 5), {}) %>", "<%= truncate(between(1, 5)) %>",
+		"<%= debug(groupBy(2, [1, 2, 3])) %>", "<%= inspect(groupBy(2, [1, 2, 3])) %>", "<%= \"\" + [range(1, 2), groupBy(1, [1])] %>", "<%= c_i(range(1, 2)) %>", "<%= c_ii(1, until(3)) %>", "<%= toJSON(range(1, 2)) %>",
+		"<% let it = range(1, 2) %><%= for (x) in it { %><%= x %><% } %><%= debug(it) %><%= inspect(it) %>",
+	} {
+		cell("iterators-printed", t)
+	}
+	// a value whose Interface() gives the value itself
+	for _, t := range []string{"<%= selfI %>", "<%= [selfI] %>", "<%= if (true) { %><%= selfI %><% } %>", "<%= pselfI %>"} {
+		idx++
+		if !b.Mine(idx) || !b.Begin("self-interface: "+t) {
+			continue
+		}
+		ctx := c04Ctx()
+		ctx.Set("selfI", c04SelfI{})
+		ctx.Set("pselfI", &c04SelfI{})
+		r := renderQuiet(t, ctx)
+		b.Count("values-whose-Interface-is-themselves")
+		b.NonTrivialDistinct()
+		if r.Pan != nil {
+			b.Violate("self-interface/"+r.Pan.Sig(), "panic: "+r.Pan.Value)
+		}
+	}
+	// blocks that replay themselves: an error (or output), not a stack that grows until the process dies
+	for _, t := range []string{
+		"<% contentFor(\"c\") { %>a<%= contentOf(\"c\") %><% } %><%= contentOf(\"c\") %>",
+		"<% contentFor(\"a\") { %><%= contentOf(\"b\") %><% } %><% contentFor(\"b\") { %><%= contentOf(\"a\") %><% } %><%= contentOf(\"a\") %>",
+		"<% contentFor(\"c\") { %><%= cap() { %><%= contentOf(\"c\") %><% } %><% } %><%= contentOf(\"c\") %>",
+	} {
+		cell("blocks-that-replay-themselves", t)
 	}
 	// a partial feeder that is a nil function (of the plain or of the exported type)
 	for i, f := range []interface{}{(func(string) (string, error))(nil), plush.PartialFeeder(nil), 5, nil} {
